@@ -146,6 +146,10 @@ def obligations(tier: str):
             add(f"{rep}_{dec}_f1", fixture="f1", rep=rep, decider=dec, max_depth=3 if rep != "dsge" or T else 2, gene_length=gl, fuel=200 if dec != "pt" else 30)
         add(f"{rep}_f2", fixture="f2", rep=rep, decider="grow", max_depth=2 if rep != "dsge" or not T else 3, gene_length=gl)
         add(f"{rep}_f3", fixture="f3", rep=rep, decider="grow", max_depth=md, gene_length=gl)
+        add(f"{rep}_f3c_bool", fixture="f3c", grammar_fn="grammar_bool", rep=rep, decider="grow", max_depth=2 if rep != "dsge" else 3, gene_length=gl)
+        if T:
+            add(f"{rep}_f3c_list", fixture="f3c", rep=rep, decider="grow", max_depth=3, gene_length=gl, fuel=60)
+            add(f"{rep}_f3b", fixture="f3b", rep=rep, decider="grow", max_depth=2 if rep != "dsge" else 3, gene_length=gl)
         add(f"{rep}_f5RD", fixture="f5", grammar_fn="g_RD", rep=rep, decider="grow", max_depth=2, gene_length=gl)
         add(f"{rep}_f0_mutated", fixture="f0", rep=rep, decider="grow", max_depth=2 if rep != "dsge" else 3, gene_length=3 if rep == "ge" else 2, ops=["mutate"])
         if T or rep == "dsge":
